@@ -66,6 +66,10 @@ def gen_cases(tier, seed):
         if dircopy:
             pre.append({"p": "dst/src", "k": "d"})
         seeded = {}
+        if ncls in ("plain", "dotted", "spaces") and r.random() < 0.3:
+            # a neighbour whose "number" is written in other digits (Arabic-Indic three) or with a sign: not a backup of anything
+            for odd in ("\xd9\xa3", "+5"):
+                pre.append({"p": "%s/%s.~%s~" % (base, names[0], odd), "k": "f", "size": 4, "seed": r.randrange(1, 1 << 30), "segs": None})
         if ncls == "backup-lookalike":
             # the name it looks like a backup of lives next to it, with a backup of its own
             pre.append({"p": base + "/a", "k": "f", "size": 11, "seed": r.randrange(1, 1 << 30), "segs": None})
@@ -146,9 +150,12 @@ def step_cwd(case, root):
     return os.path.join(root, "dst") if case.get("spell") == "cwd" and not case["dircopy"] and len(case["names"]) == 1 else root
 
 
-def write_sources(root, files):
+def write_sources(root, files, subdirs=0):
     core.force_rmtree(os.path.join(b(root), b"src"))
     spec = [{"p": "src", "k": "d"}] + [{"p": "src/" + nm, "k": "f", "size": f["size"], "seed": f["seed"], "segs": None} for nm, f in files.items()]
+    # (sub-directories with a file each: wherever the directory listing puts them, the walk leaves the directory and comes back)
+    for k in range(subdirs):
+        spec += [{"p": "src/zsub%d" % k, "k": "d"}, {"p": "src/zsub%d/inner" % k, "k": "f", "size": 3, "seed": 77 + k, "segs": None}]
     tree.materialize(root, spec)
 
 
@@ -240,7 +247,7 @@ def run_history(case, res):
         ddir = "dst/src" if case["dircopy"] else "dst"
         nsteps = 0
         for si, st in enumerate(case["steps"]):
-            write_sources(root, st["files"])
+            write_sources(root, st["files"], subdirs=6 if (case["ncls"] == "backup-named-sibling" and case["dircopy"]) else 0)
             before = listing(root, ddir)
             else_before = listing(root, "elsewhere") if case.get("linkdest") else {}
             if case.get("listing_fault") and not case.get("refuse_rename"):
